@@ -77,6 +77,8 @@ class Schedule:
         self.n, self.ms, self.calls = n, ms, 0
 
     def __call__(self, x):
+        if np.ndim(x) == 2:  # vectorised evaluation: one value per row, in row order
+            return np.array([self(xi) for xi in x])
         k, j = divmod(self.calls, self.n)
         self.calls += 1
         if k < len(self.ms) and j >= self.ms[k]:
@@ -84,12 +86,12 @@ class Schedule:
         return -0.5 * float(np.sum(x ** 2))
 
 
-def drive(n, ms, seed, extra_iters=2):
+def drive(n, ms, seed, extra_iters=2, vectorize=False):
     from tempest import Sampler
     np.random.seed(seed)
     like = Schedule(n, ms)
     K = len(ms)
-    s = Sampler(lambda u: 4 * u - 2, like, n_dim=2, n_particles=n, ess_ratio=float(K), clustering=False)
+    s = Sampler(lambda u: 4 * u - 2, like, n_dim=2, n_particles=n, ess_ratio=float(K), clustering=False, vectorize=vectorize)
     s._core._initialize_fresh()
     rec = []
     for it in range(K):
@@ -114,9 +116,10 @@ def sweep(run, tier, rng):
         else:
             ms = [rng.randint(1, n) for _ in range(K)]
         seed = rng.randrange(2 ** 31)
-        what = dict(n_particles=n, finite_counts=ms, np_seed=seed)
+        vec = t % 3 == 2
+        what = dict(n_particles=n, finite_counts=ms, np_seed=seed, vectorize=vec)
         try:
-            s, rec = drive(n, ms, seed)
+            s, rec = drive(n, ms, seed, vectorize=vec)
         except Exception as e:
             run.fail("warmup-raises", f"warm-up raised {type(e).__name__}: {e}", **what)
             continue
@@ -126,8 +129,8 @@ def sweep(run, tier, rng):
         if any(b != 0.0 for b, _ in rec):
             run.notes.append(f"case {t}: left beta=0 after {[b for b, _ in rec].index(next(b for b, _ in rec if b != 0.0))} iterations")
         logl_hist = s.state.get_history("logl", flat=True)
-        if np.any(np.isinf(logl_hist)):
-            run.fail("inf-particle-stored", "a -inf particle was committed to history", **what)
+        if np.any(np.isinf(logl_hist)) or np.any(logl_hist < -1e300):
+            run.fail("inf-particle-stored", "a zero-likelihood particle was committed to history", **what)
         fr = [Fraction(m, n) for m in ms]
         lo, hi = math.log(float(min(fr))), 0.0
         for k, (b, lz) in enumerate(rec):
